@@ -94,6 +94,15 @@ Proof. exact session_send_refused. Qed.
 Example C09_callback_is_refused : forall body, ser_request (RqSetPriv 1) [] <> Ok body.
 Proof. intros body. vm_compute. discriminate. Qed.
 
+(* Session.Close is one more command on the session: its datagrams take the next numbers *)
+Theorem C09_close_takes_next_numbers : forall s script seq ivs,
+  s_remote_id s < 4294967296 -> seq + N.of_nat (length script) < 4294967296 ->
+  let res := session_close s seq ivs script in
+  map seq_field (lr_sent res) = count_from (seq + 1) (length (lr_sent res)) /\
+  Forall (fun dg => id_field dg = s_remote_id s) (lr_sent res) /\
+  lr_seq res = seq + N.of_nat (length (lr_sent res)).
+Proof. exact session_close_seq. Qed.
+
 (* datagrams sent outside a session (commands and the three handshake payloads): ID 0, sequence 0 *)
 Theorem C09_sessionless : forall o lun body pkt,
   sessionless_command_packet o lun body = Ok pkt -> id_field pkt = 0 /\ seq_field pkt = 0.
